@@ -360,6 +360,48 @@ func (s *Sim) violate(prop, clause, shape, format string, a ...any) {
 		}
 	}
 	s.Viols = append(s.Viols, v)
+	s.mirrorLocked(v)
+}
+
+// knownKeys: the (property/clause/shape) keys of the recorded known findings,
+// handed over by the runner (SIM_KNOWN). Only used to keep them out of the
+// mirrored clauses below.
+var knownKeys = func() map[string]bool {
+	m := map[string]bool{}
+	for _, k := range strings.Split(os.Getenv("SIM_KNOWN"), ";") {
+		if k != "" {
+			m[k] = true
+		}
+	}
+	return m
+}()
+
+// mirrorLocked: under the fault-enumeration properties (C11: a disconnect
+// injected at every step; C20: Stop or loss of the messaging system) what goes
+// wrong for the other connections and for the cache is a violation of that
+// property as well (C11.b, C11.c).
+func (s *Sim) mirrorLocked(v Violation) {
+	prop := strings.TrimSuffix(s.Cfg.Prop, "base")
+	if prop != "C11" || s.Stats["fault.client_disconnect"] == 0 || knownKeys[v.Key()] {
+		return
+	}
+	clause := ""
+	switch {
+	case v.Prop == "C09" && (v.Clause == "c" || v.Clause == "e" || v.Clause == "g"):
+		clause = "c"
+	case v.Prop == "C01" || v.Prop == "C03" || v.Prop == "C07":
+		clause = "b"
+	}
+	if clause == "" {
+		return
+	}
+	m := Violation{Prop: "C11", Clause: clause, Shape: v.Prop + "." + v.Clause + "-" + v.Shape, Msg: "after a client disconnect: " + v.Msg, Step: v.Step}
+	for _, o := range s.Viols {
+		if o.Key() == m.Key() {
+			return
+		}
+	}
+	s.Viols = append(s.Viols, m)
 }
 
 func (s *Sim) violateAt(prop, clause, shape string, step int, format string, a ...any) {
@@ -372,6 +414,7 @@ func (s *Sim) violateAt(prop, clause, shape string, step int, format string, a .
 		}
 	}
 	s.Viols = append(s.Viols, v)
+	s.mirrorLocked(v)
 }
 
 func (s *Sim) probe(name string) {
